@@ -23,6 +23,10 @@ func scalarLattice(rOrder *big.Int, r *Rng, tier string, small bool) []*big.Int 
 		out = append(out, pow(64), add(pow(128), -1), pow(255), add(new(big.Int).Mul(rOrder, big.NewInt(3)), 7), r.Big(600),
 			neg(add(pow(320), 1)), r.Below(pow(127)), add(pow(uint(rOrder.BitLen())), -1))
 	}
+	if !small || tier == "thorough" {
+		// thousands of bits (cheap for the oracle over a prime field; G2 only in the thorough tier)
+		out = append(out, add(pow(3000), 1), neg(add(pow(1500), -1)))
+	}
 	if tier == "thorough" {
 		for i := 0; i < 12; i++ {
 			out = append(out, r.Below(rOrder), neg(r.Big(rOrder.BitLen()+r.Intn(80))))
@@ -30,7 +34,6 @@ func scalarLattice(rOrder *big.Int, r *Rng, tier string, small bool) []*big.Int 
 		for k := uint(1); k < uint(rOrder.BitLen())+3; k += 13 {
 			out = append(out, pow(k), add(pow(k), -1))
 		}
-		out = append(out, add(pow(3000), 1), neg(add(pow(1500), -1)))
 	}
 	return out
 }
